@@ -269,6 +269,9 @@ def check_input(
                     arg_spec_args = inspect.getfullargspec(_fn).args
 
                     arg_idx = arg_spec_args.index(obj_arg_name)
+                    if inspect.ismethod(_fn):
+                        # a bound method: the instance is not part of args
+                        arg_idx -= 1
 
                     if obj_arg_name in kwargs:
                         obj = kwargs[obj_arg_name]
